@@ -303,6 +303,8 @@ def shrink(case, fails, tag):
     dflt = base_case()
     cfg_fields = ("faults", "ffaults", "stamp", "frame", "owns", "args", "dur", "size", "cache", "loops", "pad", "n", "total")
     for _ in range(40):
+        if core.over_budget():
+            break
         cands = []
         nops = len(cur["ops"])
         if nops > 1:
